@@ -5,7 +5,7 @@ kernel path resolution, realpath, weakly_canonical, lexically_normal/relative, o
 Tie: translator unit `assets`; lockstep of the real iora::web::Assets + real std::filesystem/kernel against the model on random
 directory trees materialised under ctx.work; implementation-only monitors (content origin, OS realpath oracle, swap storm)."""
 import os, json
-from vlib.core import Ctx, hexs, unhex, ddmin
+from vlib.core import Ctx, hexs, unhex, ddmin, ModelBuildError
 
 ID = "C20"
 MODULES = ["IoraModel.Props.C20"]
@@ -317,7 +317,7 @@ def rel_names(t, base):
 
 def mutate_name(s, rng, t):
     k = rng.below(44)
-    if k < 8:
+    if k < 8 or rng.chance(1, 5):
         return s
     if k == 8:
         return s.replace(b"/", b"//")
@@ -593,19 +593,24 @@ def gen_pure_case(rng):
 
 
 def gen_storm_case(rng, idx, iters):
-    t, cfg = gen_tree(rng)
+    for _ in range(20):
+        t, cfg = gen_tree(rng)
+        if all((b"app", sub) in t.ent and t.ent[(b"app", sub)][0] == "d" for sub in (b"static", b"templates")):
+            break
+    else:
+        return None
     sops = [tree_op(t, abs_of(()))]
-    # a plain victim inside both roots
-    t2 = t
-    good = b"GOOD-CONTENT"
-    for sub in (b"static", b"templates"):
-        p = (b"app", sub)
-        if p not in t2.ent or t2.ent[p][0] != "d":
-            return None
-    sops.append(["put", "f", H(abs_of((b"app", b"static", b"victim.txt"))), H(good)])
+    good = b"GOOD-CONTENT-%d" % idx
+    victims = [(b"app", b"static", b"victim.txt"), (b"app", b"templates", b"victim.txt")]
+    for v in victims:
+        sops.append(["put", "f", H(abs_of(v)), H(good)])
+    sops.append(["put", "f", H(abs_of((b"app", b"static", b"victim.txt.gz"))), H(good)])
     sops.append(["newfs", H(abs_of((b"app",))), "1" if rng.chance(1, 2) else "0"])
-    sops.append(["storm", str(iters), H(b"victim.txt"), H(abs_of((b"app", b"static", b"victim.txt"))), H(good), H(abs_of((b"outside", b"secret.txt")))])
-    sops.append(["static", H(b"victim.txt")])
+    target = rng.choice([abs_of((b"outside", b"secret.txt")), b"../../outside/secret.txt"])
+    for v in victims + [(b"app", b"static", b"victim.txt.gz")]:
+        sops.append(["storm", str(iters), H(b"victim.txt"), H(abs_of(v)), H(good), H(target)])
+        sops.append(["static", H(b"victim.txt")])
+        sops.append(["template", H(b"victim.txt")])
     return {"sops": sops, "tree_obj": t, "cfg": cfg, "cat": "storm", "tree": idx}
 
 
@@ -642,9 +647,9 @@ def monitor_case(c, ops, impl, W):
             contents = {}
             for tok in sop:
                 if isinstance(tok, tuple) and tok[0] == "e" and tok[1] == "f":
-                    contents[tok[3]] = tuple(comps_of(tok[2].replace(W_TOKEN, b"")))
+                    contents.setdefault(tok[3], []).append(tuple(comps_of(tok[2].replace(W_TOKEN, b""))))
         if op == "put" and sop[1] == "f":
-            contents[sop[3][1]] = tuple(comps_of(sop[2][1].replace(W_TOKEN, b"")))
+            contents.setdefault(sop[3][1], []).append(tuple(comps_of(sop[2][1].replace(W_TOKEN, b""))))
         if op == "newfs":
             roots = {"static": None, "template": None}
             f = main.split()
@@ -674,18 +679,17 @@ def monitor_case(c, ops, impl, W):
             for g in got:
                 if g in emb_ok:
                     continue
-                where = contents.get(g)
-                if where is None:
+                wheres = contents.get(g)
+                if wheres is None:
                     bad.append("C20: %s %r returned bytes that are no file's content: %r" % (op, sop[1][1][:60], g[:60]))
                     continue
-                absw = comps_of(W) + list(where)
                 r = roots.get(kind)
                 if r == "ext":
-                    # physical external root = where the OS says the directory is; the generator only creates `ext`
+                    # physical external root: the generator only creates `ext`
                     r = comps_of(W) + [b"ext"]
-                if r is None or not under(r, absw) or absw == r:
+                if r is None or not any(under(r, comps_of(W) + list(w)) and comps_of(W) + list(w) != r for w in wheres):
                     bad.append("C20: %s %r returned the content of %r which is OUTSIDE the %s root %r" %
-                               (op, sop[1][1][:80], b"/".join(where), kind, b"/" + b"/".join(r) if r else None))
+                               (op, sop[1][1][:80], [b"/".join(w) for w in wheres][:3], kind, b"/" + b"/".join(r) if r else None))
             if got and op in ("static", "template") and "rp" in orc:
                 r = roots.get(kind)
                 if r == "ext":
@@ -705,7 +709,49 @@ def monitor_case(c, ops, impl, W):
 
 OBLIGATIONS = [
     {"id": "C20_A1", "theorem": "Iora.C20.A1_lexical_filter", "kind": "proved",
-     "statement": "for all byte strings: not rejected <-> (empty or: no leading '/', no NUL, no backslash, no '..' segment)"},
+     "statement": "for ALL byte strings: not rejected <-> no leading '/', no NUL, no backslash, no '..' segment (constants from Gen)"},
+    {"id": "C20_A1_segments", "theorem": "Iora.C20.A1_segments", "kind": "proved",
+     "statement": "splitSlash is the unique decomposition into '/'-separated segments (join . split = id, split . join = id)"},
+    {"id": "C20_A2", "theorem": "Iora.C20.A2_containment", "kind": "proved",
+     "statement": "canonical absolute base/target: isContained <-> names(base) is a component-wise prefix of names(target)"},
+    {"id": "C20_A2_root", "theorem": "Iora.C20.A2_root_itself", "kind": "proved",
+     "statement": "the rel == '.' corner: the root itself passes isContained (refused later: Inside is strict)"},
+    {"id": "C20_WC", "theorem": "Iora.C20.WC_missing_is_no_file", "kind": "proved",
+     "statement": "weakly_canonical of a non-existing absolute path without '..' never names a regular file in the same file system"},
+    {"id": "C20_A4_open", "theorem": "Iora.C20.A4_open_nofollow", "kind": "proved",
+     "statement": "readFile (open O_NOFOLLOW, flags from Gen) on the canonical name of a location with a real parent directory returns only that location's own regular-file bytes"},
+    {"id": "C20_A3_static", "theorem": "Iora.C20.A3_static", "kind": "proved",
+     "statement": "every Fs, every name: bytes (and gzip bytes) returned by getStatic (filesystem mode) are the content of a regular file strictly inside the static root"},
+    {"id": "C20_A3_template", "theorem": "Iora.C20.A3_template", "kind": "proved",
+     "statement": "same for getTemplate and the template root"},
+    {"id": "C20_A3_embedded", "theorem": "Iora.C20.A3_embedded", "kind": "partial",
+     "statement": "embedded mode: registry entry of exactly this path, or (externalised set only) a regular file strictly inside an absolute, '..'-free EXTERNAL_DIR that resolves to a canonical directory"},
+    {"id": "C20_A4", "theorem": "Iora.C20.A4_leaf_swap", "kind": "proved",
+     "statement": "schedule {resolve in fsR, arbitrary directory-preserving change, open in fsO}: bytes returned are inside the root in fsO"},
+    {"id": "C20_A4_swap", "theorem": "Iora.C20.A4_swap_is_dirs_preserving", "kind": "proved",
+     "statement": "replacing a non-directory by anything (the leaf -> symlink swap) is directory-preserving"},
+    {"id": "C20_A5", "theorem": "Iora.C20.A5_history", "kind": "proved",
+     "statement": "from any fromDirectory result, for EVERY history of lookups/reloads/environment changes: all bytes ever returned (fresh or cached) were inside the root at the open of some lookup"},
+    {"id": "C20_A5_reval", "theorem": "Iora.C20.A5_revalidated", "kind": "proved",
+     "statement": "a cache hit is re-validated: the name currently resolves to a regular file strictly inside the root"},
+    {"id": "C20_A5_stale", "theorem": "Iora.C20.A5_cache_can_be_stale", "kind": "proved",
+     "statement": "witness: a cached entry outlives a rewrite of its file until reload() (stale but once-inside bytes)"},
+    {"id": "C20_A0", "theorem": "Iora.Assets.fromDirectory_inv", "kind": "proved",
+     "statement": "fromDirectory returns canonical absolute roots (ordinary NUL-free names) and empty caches"},
+    {"id": "C20_Gen_flags", "theorem": "Iora.C20.Gen_open_flags", "kind": "gen-conformance", "statement": "readFile opens with O_RDONLY|O_NOFOLLOW|O_CLOEXEC"},
+    {"id": "C20_Gen_filter", "theorem": "Iora.C20.Gen_filter", "kind": "gen-conformance", "statement": "forbidden bytes/segments of the lexical filter"},
+    {"id": "C20_Gen_contained", "theorem": "Iora.C20.Gen_contained", "kind": "gen-conformance", "statement": "isContained compares the first element of rel with '..' using !="},
+    {"id": "C20_Gen_order", "theorem": "Iora.C20.Gen_call_order", "kind": "gen-conformance",
+     "statement": "order of security-relevant calls: filter -> weakly_canonical -> isContained -> is_regular_file -> cache -> open"},
+    {"id": "C20_Gen_roots", "theorem": "Iora.C20.Gen_roots", "kind": "gen-conformance", "statement": "static / templates / .gz"},
+]
+LEANCHECK = ["IoraModel.Props.C20", "IoraModel.Lemmas.AssetsRoots", "IoraModel.Lemmas.AssetsHistory", "IoraModel.Lemmas.AssetsWc", "IoraModel.Lemmas.AssetsLookup",
+             "IoraModel.Lemmas.AssetsWalk", "IoraModel.Lemmas.AssetsPath", "IoraModel.Model.Assets", "IoraModel.Gen.Assets"]
+NOT_PROVED = [
+    "agreement of the model functions (kernel path walk, realpath, status, weakly_canonical, lexically_normal, lexically_relative, open(O_NOFOLLOW)) with libstdc++/glibc/Linux — partial by nature, checked by lockstep only",
+    "A3_embedded for a relative / non-existent / trailing-slash EXTERNAL_DIR or one spelled with '..' (lockstep only)",
+    "swaps of an INTERMEDIATE directory between resolution and open (the code's documented residual; A4 assumes directories stay directories)",
+    "sufficiency of walkFuel (the model's EFUEL outcome is never proved unreachable; lockstep would show it as a mismatch)",
 ]
 
 
@@ -717,22 +763,22 @@ def run(ctx: Ctx):
     quick = ctx.tier == "quick"
     rng = ctx.rng
     ctx.translate(["assets"])
-    ok_build = ctx.lake_build(MODULES + ["iora_model"])
+    ok_build = ctx.lake_build(MODULES)
     if ok_build:
         ctx.audit(MODULES, OBLIGATIONS)
         if not quick:
-            ctx.leanchecker(MODULES + ["IoraModel.Lemmas.Assets", "IoraModel.Model.Assets"])
+            ctx.leanchecker(LEANCHECK)
     else:
         ctx.cov["obligations"] = len(OBLIGATIONS)
     hb = ctx.build_harness("harness/c20_assets.cpp", sanitize=True)
     dist = {}
-    if hb and os.path.exists(ctx.model_bin()):
+    if hb:
         sandbox = os.path.join(os.path.realpath(ctx.work), "sb")
         os.makedirs(sandbox, exist_ok=True)
         W = sandbox.encode()
         stats = os.path.join(os.path.realpath(ctx.work), "stats.txt")
         env = {"C20_SANDBOX": sandbox, "C20_STATS": stats}
-        n_fs, n_emb, n_pure, n_storm, storm_iters = (40, 10, 10, 2, 3000) if quick else (800, 200, 100, 20, 40000)
+        n_fs, n_emb, n_pure, n_storm, storm_iters = (120, 30, 20, 3, 4000) if quick else (2400, 600, 200, 30, 60000)
         cases = load_corpus()
         r1, r2, r3, r4 = rng.fork("fs"), rng.fork("emb"), rng.fork("pure"), rng.fork("storm")
         for i in range(n_fs):
@@ -747,20 +793,34 @@ def run(ctx: Ctx):
                 cases.append(c)
         for c in cases:
             c["ops"] = render_case(c["sops"], W)
-        res = ctx.lockstep("assets", hb, cases, impl_env=env, timeout=1500)
+        try:
+            res = ctx.lockstep("assets", hb, cases, impl_env=env, timeout=1500)
+        except ModelBuildError:
+            # the model driver does not build (a changed Gen fact broke the model): still search for a failing input with the
+            # implementation-only monitors (DESIGN §5.2)
+            allops = [o for c in cases for o in c["ops"]]
+            out, rc, err = ctx.run_lines([hb], allops, timeout=1500, env=env)
+            out = out + ["crash:%s" % rc] * (len(allops) - len(out))
+            res, k = [], 0
+            for c in cases:
+                res.append((c, out[k:k + len(c["ops"])], None))
+                k += len(c["ops"])
         n_mismatch = 0
         opstat = {}
         for c, impl, model in res:
             dist[c["cat"]] = dist.get(c["cat"], 0) + 1
             core = strip_oracles(impl)
             for sop, l in zip(c["sops"], core):
-                k = sop[0] + ":" + (l.split()[0] if l else "")
+                if sop[0] in ("norm", "tree", "put", "rm", "reload"):
+                    k = sop[0]
+                else:
+                    k = sop[0] + ":" + (l.split()[0] if l else "") + ((" " + l.split()[-1]) if "swapped=" in l else "")
                 opstat[k] = opstat.get(k, 0) + 1
             ctx.count_case("\n".join(c["ops"]), nontrivial=any(l.startswith("found") or l.startswith("some") for l in core))
             if len(ctx.cov["samples"]) < 6 and rng.chance(1, 8):
                 ctx.sample({"cat": c["cat"], "ops": [o[:200] for o in c["ops"][1:7]], "impl": [l[:160] for l in impl[1:7]]})
             fails = monitor_case(c, c["ops"], impl, W)
-            mism = [(i, a, b) for i, (a, b) in enumerate(zip(core, model)) if a != b]
+            mism = [(i, a, b) for i, (a, b) in enumerate(zip(core, model)) if a != b] if model is not None else []
             if fails:
                 report(ctx, c, impl, model, fails, W)
             elif mism:
@@ -777,7 +837,7 @@ def run(ctx: Ctx):
             ctx.extra["storm_stats"] = open(stats).read().splitlines()[:40]
     ctx.extra["input_distribution"] = dist
     ctx.extra["repo_tree_sha"] = ctx.repo_tree_sha(ANCHOR_FILES)
-    ctx.extra["not_proved"] = []
+    ctx.extra["not_proved"] = NOT_PROVED
     ctx.assumptions += ["the file-system model functions (kernel path walk, realpath, status, weakly_canonical, lexically_normal/relative, open(O_NOFOLLOW)) are assumptions about libstdc++/glibc/Linux; "
                         "their agreement with the real ones is checked by lockstep on generated trees, not proved",
                         "all directories searchable and files readable (no permission errors); only regular files, directories and symbolic links; hard links, mount points and /proc magic links are out of scope",
